@@ -161,10 +161,12 @@ func decodeTimeout(s string) (time.Duration, error) {
 	if d == 0 {
 		return 0, fmt.Errorf("transport: timeout unit is not recognized: %q", s)
 	}
-	t, err := strconv.ParseInt(s[:size-1], 10, 64)
+	// TimeoutValue is at most 8 ASCII digits: no sign (ParseInt accepts one).
+	u, err := strconv.ParseUint(s[:size-1], 10, 63)
 	if err != nil {
 		return 0, err
 	}
+	t := int64(u)
 	const maxHours = math.MaxInt64 / int64(time.Hour)
 	if d == time.Hour && t > maxHours {
 		// This timeout would overflow math.MaxInt64; clamp it.
